@@ -30,6 +30,7 @@ EXPLANATION = (
     "the prebuilt extension module is not re-checked against the .pyx (no Cython in this sandbox).")
 ASSUMPTIONS = ["the .pyx is compiled with true division (Cython 3, language_level 3)", "sigma is symmetric bilinear over disjoint parts (symmetric kernel)",
                "signature table of the stock variables (DESIGN.md appendix B)"]
+ADOPT = [("C09", ["C09-g", "C09-a"], "the best split is searched among the admissible ones only if the limits reach the search and every explorable leaf is offered to it")]
 
 PYX = "gemclus.tree._utils"
 
